@@ -13,7 +13,9 @@ import (
 	"io"
 	"log/slog"
 	"os"
+	"sync"
 	"testing"
+	"testing/synctest"
 
 	"github.com/KafScale/platform/pkg/metadata"
 	"github.com/KafScale/platform/pkg/protocol"
@@ -39,6 +41,8 @@ type vmPrev struct {
 type vmInput struct {
 	Kind  string    `json:"kind"`
 	Snap  []vmTopic `json:"snap"`
+	Reqs  [][]int   `json:"reqs"`  // kind metadata2: the topic ids of the two overlapping by-id requests
+	Sched [][]any   `json:"sched"` // kind metadata2: [["S",i] request i enters handleMetadata | ["R",i] its store call returns]
 	Prev  []vmPrev  `json:"prev"` // topics (name, id) of the cluster metadata the proxy's caches were refreshed from earlier
 	Mode  string    `json:"mode"`
 	Names []string  `json:"names"`
@@ -121,6 +125,106 @@ func vmProjectMeta(r *kmsg.MetadataResponse) map[string]any {
 	return map[string]any{"brokers": brokers, "controller": r.ControllerID, "topics": topics}
 }
 
+// vmGateStore parks every Metadata call until the schedule releases it; the calling request is identified through the context.
+type vmReqKey struct{}
+type vmGateStore struct {
+	metadata.Store
+	mu     sync.Mutex
+	parked map[int]chan struct{}
+	calls  []int
+}
+
+func (g *vmGateStore) Metadata(ctx context.Context, topics []string) (*metadata.ClusterMetadata, error) {
+	i, _ := ctx.Value(vmReqKey{}).(int)
+	ch := make(chan struct{})
+	g.mu.Lock()
+	g.parked[i] = ch
+	g.calls = append(g.calls, i)
+	g.mu.Unlock()
+	<-ch
+	return g.Store.Metadata(ctx, topics)
+}
+
+func (g *vmGateStore) release(i int) bool {
+	g.mu.Lock()
+	ch, ok := g.parked[i]
+	delete(g.parked, i)
+	g.mu.Unlock()
+	if ok {
+		close(ch)
+	}
+	return ok
+}
+
+// vmRunPair replays two overlapping by-id Metadata requests on ONE proxy inside a synctest bubble: synctest.Wait() is the
+// quiescence barrier between schedule steps (a request is then parked in the store, waiting for another request, or finished).
+// Returns per request the decoded reply and the steps that could actually be taken.
+func vmRunPair(t *testing.T, inp *vmInput, state metadata.ClusterMetadata, logger *slog.Logger, corrBase int32) ([2]map[string]any, []string) {
+	var replies [2]map[string]any
+	var taken []string
+	synctest.Test(t, func(t *testing.T) {
+		gs := &vmGateStore{Store: metadata.NewInMemoryStore(state), parked: map[int]chan struct{}{}}
+		p := &proxy{store: gs, advertisedHost: vmProxyHost, advertisedPort: vmProxyPort, logger: logger}
+		var raw [2][]byte
+		var errs [2]error
+		var done [2]bool
+		start := func(i int) {
+			req := kmsg.NewPtrMetadataRequest()
+			req.Version = 12
+			req.Topics = []kmsg.MetadataRequestTopic{}
+			for _, id := range inp.Reqs[i-1] {
+				rt := kmsg.NewMetadataRequestTopic()
+				rt.TopicID = vmID(id)
+				req.Topics = append(req.Topics, rt)
+			}
+			payload := vmEncode(req, corrBase+int32(i))
+			header, _, err := protocol.ParseRequestHeader(payload)
+			if err != nil {
+				t.Fatal(err)
+			}
+			ctx := context.WithValue(context.Background(), vmReqKey{}, i)
+			go func() {
+				raw[i-1], errs[i-1] = p.handleMetadata(ctx, header, payload)
+				done[i-1] = true
+			}()
+		}
+		for _, st := range inp.Sched {
+			op, _ := st[0].(string)
+			fi, _ := st[1].(float64)
+			i := int(fi)
+			switch op {
+			case "S":
+				start(i)
+				taken = append(taken, fmt.Sprintf("S%d", i))
+			case "R":
+				if gs.release(i) {
+					taken = append(taken, fmt.Sprintf("R%d", i))
+				} else {
+					taken = append(taken, fmt.Sprintf("R%d-not-in-store", i))
+				}
+			}
+			synctest.Wait()
+		}
+		for k := 0; k < 4; k++ { // whatever is still parked
+			for i := 1; i <= 2; i++ {
+				gs.release(i)
+			}
+			synctest.Wait()
+		}
+		for i := 0; i < 2; i++ {
+			if !done[i] || errs[i] != nil {
+				t.Fatalf("request %d of the pair did not complete: done=%v err=%v", i+1, done[i], errs[i])
+			}
+			resp := kmsg.NewPtrMetadataResponse()
+			if err := vmBody(resp, 12, raw[i], corrBase+int32(i+1)); err != nil {
+				t.Fatalf("pair reply %d does not decode: %v", i+1, err)
+			}
+			replies[i] = vmProjectMeta(resp)
+		}
+	})
+	return replies, taken
+}
+
 func TestVerifProxyMetaReplay(t *testing.T) {
 	in, outPath := os.Getenv("VERIF_SCHEDULES"), os.Getenv("VERIF_TRACE_OUT")
 	if in == "" || outPath == "" {
@@ -194,6 +298,22 @@ func TestVerifProxyMetaReplay(t *testing.T) {
 			store.Update(state)
 		}
 		corr := int32(7000 + n)
+		if inp.Kind == "metadata2" {
+			// two lines, one per request, each shaped like a single call: in = that request alone, reply = what it got
+			replies, taken := vmRunPair(t, &inp, state, logger, corr*4)
+			for i := 0; i < 2; i++ {
+				one := map[string]any{"kind": "metadata", "snap": inp.Snap, "mode": "ids", "names": []string{}, "ids": inp.Reqs[i], "prev": []vmPrev{},
+					"conc": map[string]any{"req": i + 1, "other": inp.Reqs[1-i], "sched": inp.Sched, "taken": taken}}
+				line, err := json.Marshal(map[string]any{"ev": "Call", "n": n, "in": one, "reply": replies[i]})
+				if err != nil {
+					t.Fatal(err)
+				}
+				w.Write(line)
+				w.WriteByte('\n')
+			}
+			n++
+			continue
+		}
 		var reply map[string]any
 		switch inp.Kind {
 		case "metadata", "nr_metadata":
